@@ -45,12 +45,16 @@ struct Ctl {
 template <class Token = inplace_stop_token>
 struct IoRcv {
   Ctl* c; Token tok{};
-  void set_value() noexcept { c->signal('V', 0, 0); }
-  void set_value(ssize_t n) noexcept { c->signal('V', (long)n, 0); }
-  void set_error(std::error_code e) noexcept { c->signal('E', -1, e.value()); }
-  void set_error(std::exception_ptr) noexcept { c->signal('E', -1, -2); }
-  void set_done() noexcept { c->signal('D', -1, 0); }
-  friend Token tag_invoke(tag_t<get_stop_token>, const IoRcv& r) noexcept { return r.tok; }
+  // destructive move: a moved-from receiver must never be completed or queried
+  struct Mv { bool moved = false; Mv() = default; Mv(const Mv&) = default; Mv& operator=(const Mv&) = default;
+              Mv(Mv&& o) noexcept : moved(o.moved) { o.moved = true; } Mv& operator=(Mv&& o) noexcept { moved = o.moved; if (&o != this) o.moved = true; return *this; }
+              void use(const char* w) const { if (moved) vmcrt::fail("C02,C12,C14", "moved-from-receiver", (std::string("a receiver was used after it had been moved from: ") + w).c_str()); } } g{};
+  void set_value() noexcept { g.use("set_value"); c->signal('V', 0, 0); }
+  void set_value(ssize_t n) noexcept { g.use("set_value"); c->signal('V', (long)n, 0); }
+  void set_error(std::error_code e) noexcept { g.use("set_error"); c->signal('E', -1, e.value()); }
+  void set_error(std::exception_ptr) noexcept { g.use("set_error"); c->signal('E', -1, -2); }
+  void set_done() noexcept { g.use("set_done"); c->signal('D', -1, 0); }
+  friend Token tag_invoke(tag_t<get_stop_token>, const IoRcv& r) noexcept { r.g.use("get_stop_token"); return r.tok; }
 };
 template <class S, class R>
 struct Heap { connect_result_t<S, R> op; Heap(S&& s, R&& r) : op(unifex::connect((S&&)s, (R&&)r)) {} };
